@@ -427,6 +427,40 @@ def pred(item, c):
         scal = f(E[..., 0, 0], *args, **kw)
         worst = max(worst, _err(scal, base(E[..., 0, 0], *args, **kw)))
         return worst <= 1e-9, f'{c["func"]} ({kind} pupil): polarised propagation vs per-component propagation: {worst!r}'
+    if item == 'pol_vectors':
+        phi, th = c['phi'], c['theta']
+        v = P.linear_pol_vector(phi, degrees=False)
+        vd = P.linear_pol_vector(math.degrees(phi))                 # default unit: degrees
+        vd2 = P.linear_pol_vector(math.degrees(phi), degrees=True)
+        want = np.array([math.cos(phi), math.sin(phi)])
+        e0 = max(_err(v, want), _err(vd, want) / max(1.0, abs(phi)), _err(vd2, vd))
+        if np.shape(v) != (2,):
+            return False, f'linear_pol_vector(scalar) has shape {np.shape(v)}'
+        grid = np.array(c['grid'], dtype=float)
+        keep = grid.copy()
+        va = P.linear_pol_vector(grid, degrees=False)
+        if va.shape != grid.shape + (2, 1) or not np.array_equal(grid, keep):
+            return False, f'linear_pol_vector(array of shape {grid.shape}) has shape {va.shape} or changed its argument'
+        e1 = max(_err(va[idx + (slice(None), 0)], P.linear_pol_vector(float(grid[idx]), degrees=False)) for idx in np.ndindex(*grid.shape))
+        L, R = P.circular_pol_vector('left'), P.circular_pol_vector('right')
+        e2 = max(abs(np.vdot(L, L) - 1), abs(np.vdot(R, R) - 1), abs(np.vdot(L, R)), abs(np.vdot(v, v) - 1), _err(P.circular_pol_vector(), L),
+                 abs(L[1] / L[0] - 1j), abs(R[1] / R[0] + 1j))
+        try:
+            P.circular_pol_vector('up')
+            return False, "circular_pol_vector('up') was accepted"
+        except ValueError:
+            pass
+        Pm = P.linear_polarizer(th)
+        out = Pm @ v
+        e3 = abs(float(np.sum(np.abs(out) ** 2)) - math.cos(th - phi) ** 2)
+        outa = P.linear_polarizer(th) @ va                      # (..., 2, 1) batch of vectors through one polariser
+        e4 = float(np.max(np.abs(np.sum(np.abs(outa) ** 2, axis=(-2, -1)) - np.cos(th - grid) ** 2)))
+        e5 = max(abs(float(np.sum(np.abs(Pm @ L) ** 2)) - 0.5), abs(float(np.sum(np.abs(Pm @ R) ** 2)) - 0.5))
+        q = P.quarter_wave_plate(math.pi / 4) @ P.linear_pol_vector(0.0, degrees=False)
+        e6 = abs(abs(np.vdot(R, q)) - 1)                          # QWP at 45 deg turns x-polarised light into a circular state
+        worst = max(e0, e1, e2, e3, e4, e5, e6)
+        return worst <= PTOL * max(1.0, abs(phi)), (f'Jones vectors at phi = {phi!r}, polariser at {th!r}: construction {e0!r}, array vs scalar {e1!r}, '
+                                                   f'norms / orthogonality {e2!r}, Malus {e3!r} (array {e4!r}), circular through polariser {e5!r}, QWP {e6!r}')
     if item == 'apply_optic':
         rng = np.random.Generator(np.random.PCG64(c['seed']))
         shp = tuple(c['shape'])
@@ -617,6 +651,43 @@ def correspondence(ctx):
             _check(ctx, 'adapter', {'func': fn, 'shape': [[8, 6], [7, 9], [8, 8]][i % 3], 'seed': int(rng.integers(0, 2 ** 31)),
                                     'pupil': pupil}, tag=f'{fn}/{pupil}')
         _check(ctx, 'apply_optic', {'shape': [[8, 6], [5, 5]][i % 2], 'seed': int(rng.integers(0, 2 ** 31))})
+    # ------------------------------------------------ Jones vectors: model vs implementation, and the predicates on the real code
+    vcases = [( _angle(rng), _angle(rng)) for _ in range(ctx.scale(150, 6000) * widen)]
+    vlines = []
+    for phi, th in vcases:
+        vlines += [f'linpol {C.f2w(phi)}', f'malus {C.f2w(th)} {C.f2w(phi)}']
+    vlines += [f'circpol {C.f2w(1.0)}', f'circpol {C.f2w(-1.0)}']
+    vrep = C.lean_driver('C20', vlines)
+
+    def _v(line):
+        x = [C.w2f(t) for t in line.split()]
+        return np.array([complex(x[0], x[1]), complex(x[2], x[3])])
+    for k, (phi, th) in enumerate(vcases):
+        c = {'phi': phi, 'theta': th}
+        ctx.case('linear_pol_vector', c, nontrivial=(phi != 0), tag='scalar')
+        try:
+            impl = P.linear_pol_vector(phi, degrees=False)
+            impl2 = P.linear_polarizer(th) @ impl
+        except Exception as ex:
+            ctx.disagree('linear_pol_vector', c, f'raised {type(ex).__name__}: {ex}', vrep[2 * k])
+            continue
+        tolv = TOL * max(1.0, abs(phi), abs(th))
+        if not _err(impl, _v(vrep[2 * k])) <= tolv:
+            ctx.disagree('linear_pol_vector', c, impl.tolist(), _v(vrep[2 * k]).tolist())
+        if not _err(impl2, _v(vrep[2 * k + 1])) <= tolv:
+            ctx.disagree('linear_polarizer@linear_pol_vector', c, impl2.tolist(), _v(vrep[2 * k + 1]).tolist())
+        if k % 3 == 0:
+            shp = [(4,), (2, 3), (1,), (2, 1, 2)][(k // 3) % 4]
+            _check(ctx, 'pol_vectors', {**c, 'grid': np.round(rng.uniform(-6, 6, size=shp), 4).tolist()}, tag=f'grid{shp}')
+    for hand, line in (('left', vrep[-2]), ('right', vrep[-1])):
+        ctx.case('circular_pol_vector', {'handedness': hand}, tag=hand)
+        try:
+            impl = P.circular_pol_vector(hand)
+            if not _err(impl, _v(line)) <= TOL:
+                ctx.disagree('circular_pol_vector', {'handedness': hand}, impl.tolist(), _v(line).tolist())
+        except Exception as ex:
+            ctx.disagree('circular_pol_vector', {'handedness': hand}, f'raised {type(ex).__name__}: {ex}', line)
+
     # add_jones_propagation installs exactly that adapter on the propagation module (restored afterwards)
     from prysm import propagation
     saved = {k: getattr(propagation, k) for k in _PROP_ARGS}
@@ -705,6 +776,9 @@ def _small_scope():
         for pupil in ('generic', 'near_symmetric', 'near_symmetric_abs', 'weak', 'weak_offdiag'):
             yield 'adapter', {'func': fn, 'shape': [8, 6], 'seed': 1, 'pupil': pupil}
     yield 'apply_optic', {'shape': [4, 3], 'seed': 1}
+    for phi in (0.0, 0.7, 2.0):
+        for th in (0.0, 0.4):
+            yield 'pol_vectors', {'phi': phi, 'theta': th, 'grid': [0.0, 0.3, 1.1]}
 
 
 def search(ctx, hints):
@@ -766,6 +840,8 @@ def replay(inp):
         item, c = 'mueller_mul', {'A': c['J'], 'B': c['J']}
     elif item == 'pauli_coefficients':
         item = 'pauli'
+    elif item in ('linear_pol_vector', 'linear_polarizer@linear_pol_vector', 'circular_pol_vector'):
+        item, c = 'pol_vectors', {'phi': c.get('phi', 0.7), 'theta': c.get('theta', 0.4), 'grid': [0.0, 0.3, 1.1]}
     try:
         ok, detail = pred(item, c)
     except Exception as ex:
@@ -801,9 +877,13 @@ MANIFEST_ENTRY = {
              'vortex(rotate) = R(-rotate) vortex(0) R(rotate), retarder(d1) retarder(d2) = retarder(d1+d2), defaults omitted = documented defaults, '
              'purity (same argument arrays twice: same answer, arrays untouched) of the array-taking functions, batched orientation / '
              'diattenuation / jones_to_mueller(broadcast=False), adapter with keyword-only and no extra arguments, all on the real code; '
-             'apply_polarization_optic (2-D fields).'),
+             'apply_polarization_optic (2-D fields). Session 3: linear_pol_vector (array and scalar branch writes, degree conversion, default unit) and circular_pol_vector '
+             '(writes per handedness, default, rejection of unknown handedness) are TRANSLATED; PROVED: both have unit intensity and left is orthogonal to right; the generated polariser applied to the '
+             'generated linear vector gives (c c\' + s s\')(c, s), i.e. intensity cos^2(theta - phi) with Real.cos (Malus with the library\'s own constructors); circular light through an ideal '
+             'polariser keeps half its intensity at every orientation. MODELLED AND COMPARED: both vector constructors and polariser @ vector; on the real code also array angle grids vs scalar calls, '
+             'degrees default, QWP at 45 deg makes a circular state.'),
     'note': ('Trusted: Lean kernel + standard axioms; translator (incl. reading jones_rotation_matrix(-theta) as (cos theta, -sin theta)); '
-             'NumPy matmul/einsum/kron/inv; IEEE rounding. Not covered: polarisation-vector helpers (circular_pol_vector(shape=...) '
-             'raises IndexError - outside the statement); apply_polarization_optic for ndim != 2 (docstring and code disagree; outside the '
+             'NumPy matmul/einsum/kron/inv; IEEE rounding. Not covered: circular_pol_vector(shape=...) '
+             '(raises IndexError - outside the statement); apply_polarization_optic for ndim != 2 (docstring and code disagree; outside the '
              'statement); rejection of alpha outside [0,1] (outside the quantifier).'),
 }
